@@ -8,26 +8,40 @@ use crate::driver::{AnyFlow, ReqCfg};
 use crate::engine::{guarded, Report, Tier, Violation};
 use crate::refmodel::{head, redirect};
 
-pub const RULE: &str = "full product: method (9) x status 300..=399 x policy {Never, SameHost} x response body {Content-Length: 0, Content-Length: 3 + body, chunked body, no framing header} x Location {present, absent} x request mode {plain; send-body-despite-method (body-less methods); Expect: 100-continue refused by the 3xx itself, and late 100 delivered in the same buffer as the 3xx (body methods)} = 28800 cells, each driven through the real flow from Prepare to the state after the response (through RecvBody where there is one), then as_new_flow and the head of the new request. distinct = distinct (method, status class, body kind, outcome) cells";
+pub const RULE: &str = "full product: method (9) x status 300..=399 x policy {Never, SameHost} x response body {Content-Length: 0, Content-Length: 3 + body, chunked body, no framing header} x Location {/next, absent, one that resolves to the request's own URI, one on another host} x request mode {plain; loaded (cookie, referer, origin, user-agent and the caller's own Transfer-Encoding: chunked; body-less methods with send-body-despite-method); send-body-despite-method (body-less methods); Expect: 100-continue refused by the 3xx itself, and late 100 delivered in the same buffer as the 3xx (body methods)} = 96000 cells, each driven through the real flow from Prepare to the state after the response (through RecvBody where there is one), then as_new_flow and the head of the new request. distinct = distinct (method, status class, body kind, outcome) cells";
 
 const METHODS: [&str; 9] = ["GET", "HEAD", "POST", "PUT", "DELETE", "CONNECT", "OPTIONS", "TRACE", "PATCH"];
-const BODIES: [&str; 8] = ["cl0", "cl3", "chunked", "none", "cl0-noloc", "cl3-noloc", "chunked-noloc", "none-noloc"];
+const BODIES: [&str; 16] = ["cl0", "cl3", "chunked", "none", "cl0-noloc", "cl3-noloc", "chunked-noloc", "none-noloc", "cl0-self", "cl3-self", "chunked-self", "none-self", "cl0-xhost", "cl3-xhost", "chunked-xhost", "none-xhost"];
 
 fn check_cell(method: &str, status: u16, same_host: bool, body: &str) -> (Option<(String, String)>, String) {
     // body kinds ending in "-noloc" carry no Location header: the redirect state must be entered all the same
-    let (body, with_loc) = match body.strip_suffix("-noloc") {
-        Some(b) => (b, false),
-        None => (body, true),
+    // "-self": the Location resolves to the very URI of the request; "-xhost": to another host
+    let (body, with_loc, loc_line, want_target) = if let Some(b) = body.strip_suffix("-noloc") {
+        (b, false, "", "")
+    } else if let Some(b) = body.strip_suffix("-self") {
+        (b, true, "Location: /p\r\n", "/p")
+    } else if let Some(b) = body.strip_suffix("-xhost") {
+        (b, true, "Location: http://b.test/next\r\n", "/next")
+    } else {
+        (body, true, "Location: /next\r\n", "/next")
     };
     // request-side mode, encoded as a prefix of the body kind: "despite+", "refused+", "late100+"
     let (mode, body) = match body.split_once('+') {
         Some((m, b)) => (m, b),
         None => ("plain", body),
     };
-    let cell = format!("{} {} policy={} body={} location={} mode={}", method, status, if same_host { "SameHost" } else { "Never" }, body, with_loc, mode);
+    let cell = format!("{} {} policy={} body={} location={:?} mode={}", method, status, if same_host { "SameHost" } else { "Never" }, body, loc_line.trim_end(), mode);
     let r = guarded(|| -> Result<String, (String, String)> {
         let mut cfg = ReqCfg::new(method, "1.1", "http://a.test/p").orig("authorization", "S3CRET");
-        if crate::refmodel::reqvalid::needs_body(method) {
+        if mode == "loaded" {
+            // the headers a real caller sends along, and the caller's own Transfer-Encoding
+            for (k, v) in [("cookie", "k=ORIG"), ("referer", "http://a.test/from"), ("origin", "http://a.test"), ("user-agent", "ua/1"), ("transfer-encoding", "chunked")] {
+                cfg = cfg.orig(k, v);
+            }
+            if !crate::refmodel::reqvalid::needs_body(method) {
+                cfg = cfg.despite(true);
+            }
+        } else if crate::refmodel::reqvalid::needs_body(method) {
             cfg = cfg.orig("content-length", "0");
         }
         if mode == "refused" || mode == "late100" {
@@ -36,7 +50,7 @@ fn check_cell(method: &str, status: u16, same_host: bool, body: &str) -> (Option
         if mode == "despite" {
             cfg = cfg.despite(true);
         }
-        let mut resp = format!("HTTP/1.1 {} X\r\n{}", status, if with_loc { "Location: /next\r\n" } else { "" });
+        let mut resp = format!("HTTP/1.1 {} X\r\n{}", status, loc_line);
         let body_bytes: &[u8] = match body {
             "cl0" => {
                 resp.push_str("Content-Length: 0\r\n");
@@ -173,12 +187,18 @@ fn check_cell(method: &str, status: u16, same_host: bool, body: &str) -> (Option
                     return Err(("C15:wrong-method".into(), format!("{}: new flow has method {}, expected {}", cell, nf.method(), w)));
                 }
                 // and on the wire
+                let mut nf = nf;
+                if mode == "loaded" && !crate::refmodel::reqvalid::needs_body(&w) {
+                    // the caller's Transfer-Encoding header is inherited (only Cookie, Content-Length and
+                    // Authorization are dropped, C13): a body-less method then needs the caller's consent
+                    nf.send_body_despite_method();
+                }
                 let mut sr = nf.proceed();
                 let hb = crate::driver::write_whole_head(&mut sr).map_err(|e| ("C15:new-flow-unwritable".to_string(), format!("{}: {}", cell, e)))?;
                 let h = head::parse(&hb).map_err(|e| ("C15:new-head-malformed".to_string(), format!("{}: {}", cell, e)))?;
                 let (m, t, _) = h.request_line().map_err(|e| ("C15:new-head-malformed".to_string(), e))?;
-                if m != w || t != "/next" {
-                    return Err(("C15:wrong-request-line".into(), format!("{}: request line {:?}, expected {} /next", cell, String::from_utf8_lossy(&h.start_line), w)));
+                if m != w || t != want_target {
+                    return Err(("C15:wrong-request-line".into(), format!("{}: request line {:?}, expected {} {}", cell, String::from_utf8_lossy(&h.start_line), w, want_target)));
                 }
                 Ok(format!("followed-{}", if w == method { "same" } else { "GET" }))
             }
@@ -204,6 +224,7 @@ pub fn run(_tier: Tier) -> Report {
             for p in [false, true] {
                 for b in BODIES {
                     jobs.push((m, s, p, b.to_string()));
+                    jobs.push((m, s, p, format!("loaded+{}", b)));
                     let body_method = crate::refmodel::reqvalid::needs_body(m);
                     if !body_method {
                         jobs.push((m, s, p, format!("despite+{}", b)));
